@@ -287,6 +287,10 @@ Section Loop.
     li_heads : forall h, In h (v_heads (s_v st)) -> h < n0 -> In h Scope;
     li_bms : v_bms (s_v st) = v_bms (s_v s0);
     li_wcs : v_wcs (s_v st) = v_wcs (s_v s0);
+    li_ident : forall y, n0 <= y < length (s_g st) ->
+      exists x, c_preds (getc (s_g st) y) = [x] /\ In x T /\
+                c_change (getc (s_g st) y) = c_change (getc G0 x) /\
+                c_desc (getc (s_g st) y) = c_desc (getc G0 x);
   }.
 
   Lemma LI_init : LI [] s0.
@@ -297,6 +301,7 @@ Section Loop.
     - intros k [].
     - intros h Hh _. unfold Scope, scope. apply ancs_spec; [apply (j_wf _ J0)|].
       exists h. split; [apply in_or_app; now left|constructor].
+    - intros y Hy. fold G0 n0 in Hy. lia.
   Qed.
 
   Lemma pm_nd_set_other pm k r z : z <> k -> pm_nd (pm_set k r pm) z = pm_nd pm z.
@@ -445,6 +450,7 @@ Section Loop.
         * apply (li_heads _ _ HLI).
         * apply (li_bms _ _ HLI).
         * apply (li_wcs _ _ HLI).
+        * apply (li_ident _ _ HLI).
       + (* rebased copy *)
         apply Ok_inj in H. subst st'.
         set (c' := mk_commit np' (c_change c) (c_desc c) (if N.eqb orc 2 then negb (c_empty c) else c_empty c) [x]) in *.
@@ -488,6 +494,9 @@ Section Loop.
           intros h Hin Lh. destruct (Hh h Hin) as [->|Hold]; [lia|]. now apply (li_heads _ _ HLI).
         * destruct (write_commit_view st c' (Some x)) as [Hb _]. fold st' in Hb. rewrite Hb. apply (li_bms _ _ HLI).
         * destruct (write_commit_view st c' (Some x)) as [_ [Hw _]]. fold st' in Hw. rewrite Hw. apply (li_wcs _ _ HLI).
+        * intros y Hy. rewrite Lw in Hy. rewrite Gw. destruct (Nat.eq_dec y (length (s_g st))) as [->|Ny].
+          -- rewrite getc_app_new. exists x. cbn [c' c_preds c_change c_desc]. auto.
+          -- rewrite getc_app_old by lia. apply (li_ident _ _ HLI). lia.
   Qed.
 
   (** ** Orders that respect the dependencies the implementation computes: a parent that is to
